@@ -40,7 +40,7 @@ def run(ctx):
             return 1
         return 0
     thorough = ctx.tier == "thorough"
-    for dev, fam in (("StringMatch", "param"), ("RecvOfOrigin", "mset"), ("CurrentPkgName", "qual"), ("SharedImports", "qual"), ("OwnPkgLookup", "sealed")):
+    for dev, fam in (("StringMatch", "param"), ("RecvOfOrigin", "mset"), ("CurrentPkgName", "qual"), ("SharedImports", "qual"), ("OwnPkgLookup", "sealed"), ("PathElemBinds", "qual")):
         r = ctx.tlc("Implements", cfg(fam, emit=False, dev='{"%s"}' % dev, live=False), label="c05_dev_" + dev, allow_violation=True, count=False)
         if r["violated"] is None:
             raise vlib.ToolError("deviation %s violates nothing: vacuous" % dev)
@@ -82,21 +82,42 @@ def run(ctx):
             continue
         bad.append((prog, exp, sc, o, None))
     seen = set()
+    known = vlib.load_known()
     for prog, exp, sc, o, fail in bad:
         s = sc["sc"]
         key = (exp[0], o[0] if o else "fail", s["qual"], s["via"], s["recv"])
-        if key in seen or len(ctx.violations) >= 3:
+        if (key in seen and s["qual"] != "lastelem") or len(ctx.violations) >= 3:
             continue
         seen.add(key)
         r2 = proglib.run_vh(ctx, [prog])[prog["id"]]
         o2 = obs_of(r2) if not r2.get("fail") else None
         if o2 is not None and (o2[0], o2[1]) == (exp[0], exp[1]):
             raise vlib.ToolError("mismatch did not reproduce: %s" % s)
+        # known finding KF1: listed in known_findings.jsonl by its structural signature; attributed only if the observation
+        # is exactly what the specification predicts with the PathElemBinds deviation
+        kf = [k for k in known if k["property"] == "C05" and all(s.get(a) == b for a, b in k["signature"].items())]
+        if kf and o2 is not None and (o2[0], list(o2[1])) == (sc["kf1_code"], sorted(sc["kf1_missing"])):
+            ctx.known_finding(kf[0]["id"], kf[0]["what"])
+            continue
         ctx.violation("@implements %s%sI on T (method M(%s%s) %s, receiver %s, %s) against interface method M(%s%s) %s [%s]: Go says %s %s, the tool says %s"
-                      % ("&" if s["cptr"] else "", {"none": "", "declared": "d.", "alias": "x.", "diffname": "bar.", "selfname": "u.", "unbound": "nope."}[s["qual"]],
+                      % ("&" if s["cptr"] else "", {"none": "", "declared": "d.", "alias": "x.", "diffname": "bar.", "selfname": "u.", "unbound": "nope.", "lastelem": "gobar."}[s["qual"]],
                          "..." if s["vT"] else "", s["pT"], s["rT"], s["recv"], s["via"], "..." if s["vI"] else "", s["pI"], s["rI"], s["ikind"],
                          exp[0], list(exp[1]), (list(o2[:2]) if o2 else r2.get("fail", "")[:200])),
                       {"kind": "implements", "program": prog, "expected": [exp[0], list(exp[1])], "observed": list(o2) if o2 else None, "scenario": s})
+    # the import table itself (util.ImportMap.Find): every table of <= 2 (quick) / 3 (thorough) imports x every qualifier
+    icfg = "SPECIFICATION Spec\nCONSTANTS\n  Emit = TRUE\n  MaxImports = %d\nINVARIANTS FindsBound ResultMatches OnlyFallbackDeviates EmitInv\nPROPERTIES Termination\n" % (3 if thorough else 2)
+    isc, ir = progcheck.tlc_scenarios(ctx, "ImportMap", icfg, "c05_importmap", timeout=1800)
+    import subprocess
+    pr = subprocess.run([ctx.vh(), "importmap-replay"], input="\n".join(json.dumps(x) for x in isc) + "\n", stdout=subprocess.PIPE,
+                        stderr=subprocess.PIPE, text=True)
+    if pr.returncode not in (0, 1):
+        raise vlib.ToolError("importmap-replay failed: " + pr.stderr[-800:])
+    ires = json.loads(pr.stdout)
+    nrun += ires["scenarios"]
+    for mm in (ires["mismatches"] or [])[:2]:
+        if len(ctx.violations) < 3:
+            ctx.violation("ImportMap.Find(%r) over imports %s: the specification resolves to %r, the implementation to %r"
+                          % (mm["q"], mm["imports"], mm["expected"], mm["observed"]), {"kind": "importmap", "scenario": mm})
     nreal = 0
     if not ctx.violations:
         # a sample through the unmodified binary and go vet
@@ -106,6 +127,10 @@ def run(ctx):
                 r = proglib.run_binary(ctx, p2) if drv == "binary" else proglib.run_vet(ctx, p2)
                 nreal += 1
                 o = gen_impl.observed(r.get("diags") or [])
+                kf = [k for k in known if k["property"] == "C05" and all(sc["sc"].get(a) == b for a, b in k["signature"].items())]
+                if kf and not r.get("fail") and (o[0], list(o[1])) == (sc["kf1_code"], sorted(sc["kf1_missing"])):
+                    ctx.known_finding(kf[0]["id"], kf[0]["what"])
+                    continue
                 if (r.get("fail") or (o[0], o[1]) != (exp[0], exp[1])) and len(ctx.violations) < 3:
                     ctx.violation("%s driver: expected %s %s, observed %s %s" % (drv, exp[0], list(exp[1]), list(o[:2]), (r.get("fail") or "")[:200]),
                                   {"kind": "implements", "program": prog, "expected": [exp[0], list(exp[1])], "observed": list(o), "scenario": sc["sc"], "driver": drv})
@@ -121,6 +146,7 @@ def run(ctx):
                 "types.Identical: %d cases, any disagreement is a model error) and then compared with the analyzer's code and list of missing methods; "
                 "distinct_nontrivial = scenarios whose expected verdict is a diagnostic" % model_checked,
         "cross_checked_with_go_types": model_checked,
+        "import_tables_replayed": ires["scenarios"],
         "replayed_real_binary_and_vet": nreal,
         "exhaustive": True,
     }, assumptions=["non-generic interfaces and types; one relevant method (two in the method-set family)",
